@@ -144,9 +144,6 @@ func (c c16Case) body(x *xplore.Ctx, viol func(sig, detail string)) string {
 	s := store.New()
 	faults := 0
 	fault := func(what string) error {
-		if c.Kind == "quick" {
-			return nil // its API panics instead of returning errors: ordering only
-		}
 		// the failure is a generic error, or one whose identity a builder might
 		// mistake for "end of input": bare / wrapped io.EOF, io.ErrUnexpectedEOF
 		switch x.Choose(5, what) {
@@ -200,8 +197,14 @@ func (c c16Case) body(x *xplore.Ctx, viol func(sig, detail string)) string {
 			if _, ok := pv.(xplore.Diverged); ok {
 				panic(pv)
 			}
-			viol("panic build "+c.Kind, fmt.Sprintf("%s: %v", c, pv))
-			err = fmt.Errorf("panic")
+			if c.Kind == "quick" && faults > 0 {
+				// the quick builder's way of reporting a failed write (its API has
+				// no error results): the session must not end as if nothing happened
+				err = fmt.Errorf("quick builder panicked: %v", pv)
+			} else {
+				viol("panic build "+c.Kind, fmt.Sprintf("%s: %v", c, pv))
+				err = fmt.Errorf("panic")
+			}
 		}
 	}
 	if c.Kind == "sharded" || c.Kind == "quick" || c.Kind == "plain" || (c.Kind == "auto-large" && false) {
